@@ -1,8 +1,11 @@
 //! Group driver: runs the REAL kanidm code and records observed traces (ndjson) which TLC
 //! validates against the TLA+ specifications in /verif/spec. See /verif/DESIGN.md.
+#[macro_use]
+extern crate tracing;
 use kvc::util::Opts;
 mod c01;
 mod c02;
+mod c14;
 mod fmodel;
 mod schemadump;
 
@@ -16,6 +19,7 @@ fn main() {
     let rc = match args[1].as_str() {
         "c01" => c01::run(&opts),
         "c02" => c02::run(&opts),
+        "c14" => c14::run(&opts),
         "schema" => schemadump::run(&opts),
         other => {
             eprintln!("unknown subcommand {other}");
